@@ -9,10 +9,8 @@ go build -o bin/vcheck ./cmd/vcheck
 ./bin/vcheck build
 # warm the cross-compilation caches used by C13 (standard library per target)
 if [ -d /repo ]; then
-  ( cd /repo && for t in linux/386 linux/arm linux/arm64 linux/riscv64 linux/mips linux/ppc64le linux/s390x js/wasm wasip1/wasm windows/arm64 windows/386 darwin/arm64 freebsd/amd64; do
-      GOOS=${t%/*} GOARCH=${t#*/} CGO_ENABLED=0 GOFLAGS=-mod=mod GOPROXY=off GOWORK=off GOCACHE=/verif/.build/gocache go build std >/dev/null 2>&1 &
-      if [ $(jobs -r | wc -l) -ge 4 ]; then wait -n 2>/dev/null || wait; fi
-    done; wait )
+  ( cd /repo && printf '%s\n' linux/386 linux/arm linux/arm64 linux/riscv64 linux/mips linux/ppc64le linux/s390x js/wasm wasip1/wasm windows/arm64 windows/386 darwin/arm64 freebsd/amd64 | \
+    xargs -P 4 -I{} sh -c 't={}; GOOS=${t%/*} GOARCH=${t#*/} CGO_ENABLED=0 GOFLAGS=-mod=mod GOPROXY=off GOWORK=off GOCACHE=/verif/.build/gocache go build std >/dev/null 2>&1 || true' )
   # race-enabled harness (C10's free-running pass) and the js/wasm harness (C13)
   ( cd /repo && GOFLAGS=-mod=mod GOPROXY=off GOWORK=off GOCACHE=/verif/.build/gocache go build -race -overlay /verif/.build/warm/overlay.json -o /verif/.build/warm/harness-race ./internal/zzverif/cmd/harness >/dev/null 2>&1
     GOOS=js GOARCH=wasm GOFLAGS=-mod=mod GOPROXY=off GOWORK=off GOCACHE=/verif/.build/gocache go build -overlay /verif/.build/warm/overlay.json -o /verif/.build/warm/harness.wasm ./internal/zzverif/cmd/harness >/dev/null 2>&1 ) || true
